@@ -10,13 +10,13 @@ package main
 //   //@ checked NAME PROPS...: site=call F argN ; by=call G argM ; in=pkg ; except=...
 
 import (
-	"strconv"
-	"go/ast"
 	"fmt"
+	"go/ast"
 	"go/constant"
 	"go/token"
 	"go/types"
 	"sort"
+	"strconv"
 	"strings"
 
 	"golang.org/x/tools/go/ssa"
@@ -212,6 +212,13 @@ func siteMatches(p *Program, pat string, in ssa.Instruction) (string, bool) {
 			return "call through " + f[1], true
 		}
 		return "", false
+	case "binop":
+		// `binop PATTERN`: an arithmetic / comparison instruction whose access path matches (phi:count+1)
+		bo, ok := in.(*ssa.BinOp)
+		if !ok || !pathMatches(valuePath(bo), f[1]) {
+			return "", false
+		}
+		return valuePath(bo), true
 	case "invoke":
 		// `invoke NAME`: a call of the interface method NAME (the receiver is not among the arguments)
 		c, ok := in.(*ssa.Call)
